@@ -229,7 +229,7 @@ func (c *Ctx) summaries(rule string) *core.Summaries {
 	R := c.R
 	// The summaries are obligations of the properties that own the reader (C03, C04, C10). Other properties
 	// use them when they verify and go without them otherwise (their own obligations then decide).
-	owner := strings.HasPrefix(rule, "C03") || strings.HasPrefix(rule, "C04") || strings.HasPrefix(rule, "C10")
+	owner := strings.HasPrefix(rule, "C03") || strings.HasPrefix(rule, "C04") || strings.HasPrefix(rule, "C10") || strings.HasPrefix(rule, "C14")
 	if !owner {
 		saved := R.Obls
 		defer func() {
@@ -270,7 +270,7 @@ func (c *Ctx) summaries(rule string) *core.Summaries {
 			}
 		}
 		R.Check(ok && n >= 1, rule, "summary:reset:len(Msg)==size", c.atFn(reset), "after reset(size) the message window is exactly size bytes long (every return)", sprintf("proved len(Msg) == size at %d return(s) by E-LIN", n), "cannot prove len(reader.Msg) == size at every return of reset: the message window may be shorter or longer than the declared body")
-		if ok && n >= 2 {
+		if ok && n >= 1 {
 			s.ResetLen = reset
 		}
 	}
